@@ -9,6 +9,7 @@ import SJ.Proofs.GoFind
 import SJ.Proofs.GoFindElem
 import SJ.Proofs.GoArrStr
 import SJ.Proofs.GoElems
+import SJ.Proofs.GoInterfaceRec
 /-
 C12 — Lookup, filtered iteration and bulk accessors agree with plain traversal.
 -/
@@ -304,5 +305,35 @@ theorem C12_elements_follow_source (pj : PJ) (hb : BufOK pj) (v : View) (hl : v.
     (∀ (es : Array View.Elem), (∀ x ∈ es, x.iter.lim ≤ pj.tape.size ∧ 0 ≤ x.iter.addNext) →
       View.elemsMarshal pj es ≠ .panic ∧ View.elemsMarshal pj es ≠ .diverge) :=
   SJ.GoElems.go_elems_source_tie pj hb v hl mf F hm hF
+
+open SJ SJ.GoSem SJ.Generated SJ.GoIter SJ.GoObject SJ.GoMarshal SJ.GoInterface in
+/-- **`Iter.Interface`, `Array.Interface`, `Object.Map` of /repo are the fragment `interfaceV` / `arrV` / `mapV` of the hand
+    model**: for every tape (`BufOK`, fewer than 2^63 words), every iterator / view inside the tape, every model fuel
+    `mf` and interpreter fuel `F ≥ 3·mf + len(tape) + 10`, running the regenerated tree gives what the fragment
+    computes — `.ok v` ⇔ `(v, nil)`; `.error` ⇔ `(_, non-nil error)`; `.panic` ⇔ panic — with tape and buffers unchanged
+    and the receiver of `Interface` / `Array.Interface` as before.  Where the fragment answers `.diverge` (its own fuel
+    is used up, a Root or None branch of `Interface` is reached, an offset is no Go `int`) nothing is claimed. -/
+theorem C12_interface_follows_source (pj : PJ) (hb : BufOK pj) (hsz : pj.tape.size < 2^63) (mf F : Nat)
+    (hF : goFuel pj mf ≤ F) :
+    (∀ (i : Iter), i.lim ≤ pj.tape.size →
+      SimV pj i (runFun goFuns goIter_Interface F ⟨envOf "i" i ++ bufEnv pj, pj.tape⟩) (interfaceV pj i mf)) ∧
+    (∀ (a : View), a.lim ≤ pj.tape.size →
+      SimA pj a (runFun goFuns goArray_Interface F ⟨[("a.off", .int a.off), ("a.lim", .int a.lim)] ++ bufEnv pj, pj.tape⟩)
+        (arrV pj a.iter [] mf)) ∧
+    (∀ (o : View) (acc : List (Bytes × IVal)) (b : Bool), o.lim ≤ pj.tape.size → (b = true → acc = []) →
+      SimM pj (runFun goFuns goObject_Map F
+        ⟨[("o.off", .int o.off), ("o.lim", .int o.lim), ("dst", .iface (.obj acc)), ("dst==nil", .bool b)] ++ bufEnv pj,
+          pj.tape⟩) (mapV pj o acc mf)) :=
+  SJ.GoInterface.go_interface_source_tie pj hb hsz mf F hF
+
+open SJ SJ.GoSem SJ.Generated SJ.GoIter SJ.GoObject SJ.GoMarshal SJ.GoInterface in
+/-- … and against the hand model itself: whenever the fragment is definite, the hand model `Iter.interface` has the same
+    answer (`fragment_agrees`), and so has the source. -/
+theorem C12_interface_follows_model (pj : PJ) (hb : BufOK pj) (hsz : pj.tape.size < 2^63) (i : Iter)
+    (hl : i.lim ≤ pj.tape.size) (mf F : Nat) (hF : goFuel pj mf ≤ F) (v : IVal) (h : interfaceV pj i mf = .ok v) :
+    Iter.interface pj i mf = .ok v ∧
+    ∃ s, runFun goFuns goIter_Interface F ⟨envOf "i" i ++ bufEnv pj, pj.tape⟩ = .ret s [.iface v, .bool false] ∧
+      s.tape = pj.tape ∧ iterAt s.env "i" = some i :=
+  SJ.GoInterface.go_interface_follows_model pj hb hsz i hl mf F hF v h
 
 end SJ.Properties.C12
